@@ -3,7 +3,7 @@ From Coq Require Import List NArith Arith Bool Lia String.
 From GV Require Import Base.Ints Gen.Math Gen.Kernel Model.Mirror
   Proofs.Thresholds Proofs.MirrorAuth Proofs.MirrorNoop Proofs.MirrorChain Proofs.MirrorCert
   Proofs.MirrorTotal Proofs.MirrorRestart Proofs.MirrorLog
-  Proofs.MirrorResumeWit Proofs.MirrorResumeLoad Proofs.MirrorResumeInv Proofs.MirrorResumeStart
+  Proofs.MirrorResumeWit Proofs.MirrorResumeLoad Proofs.MirrorResumeRT Proofs.MirrorResumeInv Proofs.MirrorResumeStart
   Proofs.MirrorResumeOps Proofs.MirrorResumeOps2 Proofs.MirrorResumeOps3 Proofs.MirrorResumeOps4.
 Import ListNotations.
 Local Open Scope N_scope.
@@ -17,6 +17,31 @@ Proof.
     + destruct (K_jump ih ivs s HK) as [K1 P1]. destruct (IH (jump_voting_round s) r K1) as [K2 P2].
       split; [exact K2|eapply pref_trans; eassumption].
     + split; [exact HK|apply pref_refl; exact (proj2 (proj2 (proj2 (proj2 (proj2 (proj2 HK))))))].
+Qed.
+
+(** * What [rs_save_ph] does to the cells *)
+Lemma rs_save_ph_cells rs p h0 r0 :
+  re_pv (rs_entry (rs_save_ph rs p) h0 r0) = re_pv (rs_entry rs h0 r0) /\
+  re_pc (rs_entry (rs_save_ph rs p) h0 r0) = re_pc (rs_entry rs h0 r0) /\
+  incl (re_phs (rs_entry rs h0 r0)) (re_phs (rs_entry (rs_save_ph rs p) h0 r0)).
+Proof.
+  unfold rs_save_ph. set (e := rs_entry rs (hd_height (ph_hdr p)) (ph_round p)).
+  destruct (existsb _ (re_phs e)); [repeat split; intros x Hx; exact Hx|].
+  rewrite rs_entry_set. destruct ((_ =? h0) && (_ =? r0)) eqn:E; [|repeat split; intros x Hx; exact Hx].
+  apply andb_true_iff in E as [A B]. apply N.eqb_eq in A, B. subst h0 r0. cbn [re_pv re_pc re_phs]. fold e.
+  repeat split. intros x Hx. apply in_or_app; left; exact Hx.
+Qed.
+
+Lemma rs_save_ph_new rs p :
+  exists q0, In q0 (re_phs (rs_entry (rs_save_ph rs p) (hd_height (ph_hdr p)) (ph_round p))) /\
+             hd_hash (ph_hdr q0) = hd_hash (ph_hdr p).
+Proof.
+  unfold rs_save_ph. set (e := rs_entry rs (hd_height (ph_hdr p)) (ph_round p)).
+  destruct (existsb _ (re_phs e)) eqn:Ex.
+  - apply existsb_exists in Ex as (q0&Hq0&Eq0). apply andb_true_iff in Eq0 as [Eq0 _]. apply bytes_eqb_eq in Eq0.
+    exists q0. split; [exact Hq0|exact Eq0].
+  - rewrite rs_entry_set, !N.eqb_refl. cbn [andb re_phs]. exists p.
+    split; [apply in_or_app; right; left; reflexivity|reflexivity].
 Qed.
 
 (** * Store updates by the replay handler *)
@@ -53,13 +78,13 @@ Qed.
 (** * The optional insertion of the replayed header *)
 Lemma K_replay_insert ih ivs s hd r s1 :
   K ih ivs s ->
-  v_h (k_vot s) = hd_height hd -> hd_ok hd = true -> vs_ok (hd_next hd) = true -> hd_height hd + 1 < two64 ->
+  v_h (k_vot s) = hd_height hd -> v_r (k_vot s) = r -> hd_ok hd = true -> vs_ok (hd_next hd) = true -> hd_height hd + 1 < two64 ->
   negb (hd_height hd =? k_init_h s) && negb (bytes_eqb (hd_prev hd) (chdr_hash s)) = false ->
   pow_ok (hd_vals hd) -> pow_ok (hd_next hd) -> vs_keys (hd_next hd) <> [] ->
   replay_insert s hd r = Ok s1 ->
   K ih ivs s1 /\ pref ih ivs s s1.
 Proof.
-  intros HK Hh Hok Hnext Hb Hprev Hvals Hn Hkeys Hins.
+  intros HK Hh Hrr Hok Hnext Hb Hprev Hvals Hn Hkeys Hins.
   pose proof HK as (HI&HP&(Xc&(Nc&Nv&Nn)&(N1v&N1n)&Xk&Xs)). pose proof HI as (Hc&Ha&Hs&Hhi).
   pose proof (replay_checks_good _ _ _ _ r Hc Hh Hok Hnext Hb Hprev) as Hgood.
   destruct (cinv_replay_insert _ _ _ _ _ _ Hc Hgood Hins) as [Hc1 _].
@@ -81,8 +106,8 @@ Proof.
   revert Hins. unfold replay_insert.
   destruct (existsb _ (v_phs _)); [intros E; inversion E; subst; split; [exact HK|apply pref_refl; exact Xs]|].
   assert (Hkok' : forall q, In q (v_phs (k_vot s) ++ [fake_ph hd r]) \/ In q (v_phs (k_nxt s)) -> vs_keys (hd_next (ph_hdr q)) <> []).
-  { intros q [Hq|Hq]; [|apply Xk; right; exact Hq].
-    apply in_app_or in Hq as [Hq|[Hq|[]]]; [apply Xk; left; exact Hq|subst q; exact Hkeys]. }
+  { intros q [Hq|Hq]; [|apply (proj1 Xk); right; exact Hq].
+    apply in_app_or in Hq as [Hq|[Hq|[]]]; [apply (proj1 Xk); left; exact Hq|subst q; exact Hkeys]. }
   destruct (existsb _ (st_rounds s)); intros E; inversion E; subst s1; clear E.
   - (* filed as a keyless proposed header of the replayed round *)
     match goal with |- K _ _ ?S /\ _ => set (s2 := S) in * end.
@@ -101,7 +126,15 @@ Proof.
       split; [exact Xc|]. split; [split; [exact Nc|split; [exact Nv|exact Nn]]|].
       split.
       { unfold n1, n1_view, s2. cbn. split; intros Hpc; rewrite Hcells; [apply N1v|apply N1n]; exact Hpc. }
-      split; [exact Hkok'|exact S2].
+      split; [|exact S2]. split; [exact Hkok'|]. destruct Xk as [_ [Yv Yn]].
+      unfold Y, s2. cbn [st_rounds st_replayed k_vot k_nxt set_vot log_w set_rounds].
+      split.
+      * eapply (yview_phs_grow _ _ _ _ (k_vot s)); [exact Yv|reflexivity|reflexivity|reflexivity|reflexivity|reflexivity|reflexivity
+          |apply rs_save_ph_cells|apply rs_save_ph_cells|apply rs_save_ph_cells|intros x Hx; exact Hx|].
+        cbn [with_phs v_phs]. intros q Hq. apply in_app_or in Hq as [Hq|[Hq|[]]]; [left; exact Hq|right; left]. subst q.
+        pose proof (rs_save_ph_new (st_rounds s) (fake_ph hd r)) as Hnew. cbn [fake_ph ph_hdr ph_round] in Hnew.
+        rewrite Hh, Hrr. exact Hnew.
+      * eapply yview_mono; [apply rs_save_ph_cells|apply rs_save_ph_cells|apply rs_save_ph_cells|intros x Hx; exact Hx|exact Yn].
     + apply (pref_one ih ivs s s2 (WPH (fake_ph hd r))); [reflexivity|reflexivity|exact Xs|exact S2| |reflexivity].
       rewrite Est. unfold sadv. cbn [sr_hdrs sr_nhr]. split; [auto|]. split; [lia|]. split; [lia|].
       intros _. split; [reflexivity|]. split; [reflexivity|apply rs_refl].
@@ -114,7 +147,14 @@ Proof.
     split.
     + split; [split; [exact Hc1|split; [exact Ha1|split; [exact Hs|exact Hhi]]]|]. split; [exact Hpok1|].
       split; [exact Xc|]. split; [split; [exact Nc|split; [exact Nv|exact Nn]]|].
-      split; [split; [exact N1v|exact N1n]|]. split; [exact Hkok'|exact S2].
+      split; [split; [exact N1v|exact N1n]|]. split; [|exact S2]. split; [exact Hkok'|]. destruct Xk as [_ [Yv Yn]].
+      unfold Y, s2. cbn [st_rounds st_replayed k_vot k_nxt set_vot log_w set_replayed].
+      split.
+      * eapply (yview_phs_grow _ _ _ _ (k_vot s)); [exact Yv|reflexivity|reflexivity|reflexivity|reflexivity|reflexivity|reflexivity
+          |reflexivity|reflexivity|intros x Hx; exact Hx|intros x Hx; apply in_or_app; left; exact Hx|].
+        cbn [with_phs v_phs]. intros q Hq. apply in_app_or in Hq as [Hq|[Hq|[]]]; [left; exact Hq|right; right]. subst q.
+        exists hd. split; [apply in_or_app; right; left; reflexivity|]. split; [symmetry; exact Hh|reflexivity].
+      * eapply yview_mono; [reflexivity|reflexivity|intros x Hx; exact Hx|intros x Hx; apply in_or_app; left; exact Hx|exact Yn].
     + apply (pref_one ih ivs s s2 (WReplay hd)); [reflexivity|reflexivity|exact Xs|exact S2| |reflexivity].
       rewrite Est. unfold sadv. cbn [sr_hdrs sr_nhr]. split; [auto|]. split; [lia|]. split; [lia|].
       intros _. split; [reflexivity|]. split; [reflexivity|apply rs_refl].
@@ -153,6 +193,25 @@ Proof.
     eapply merge_sigs_true_nonempty; [exact Es|]. apply (Hne t sigs). left; reflexivity.
 Qed.
 
+Lemma replay_temp_nd h r keys (pc : pmap) entries : forall tm av tm' av',
+  nd_pmap pc -> nd_pmap tm ->
+  fold_left (fun acc e =>
+      let '(tm, av) := acc in
+      let base := match pm_get pc (fst e) with Some p => p | None => [] end in
+      let '(p', a, _) := merge_sparse KPrecommit h r (fst e) keys base (snd e) in
+      (pm_set tm (fst e) p', av && a)) entries (tm, av) = (tm', av') -> nd_pmap tm'.
+Proof.
+  induction entries as [|e rest IH]; intros tm av tm' av' Hpc Htm; cbn [fold_left].
+  - intros E; inversion E; subst; exact Htm.
+  - cbv zeta.
+    assert (Hb : nd_proof (match pm_get pc (fst e) with Some p => p | None => [] end)).
+    { destruct (pm_get pc (fst e)) eqn:Eg; [exact (Hpc _ _ (pm_get_in _ _ _ Eg))|constructor]. }
+    pose proof (merge_sparse_nd KPrecommit h r (fst e) keys _ (snd e) Hb) as Hm.
+    destruct (merge_sparse KPrecommit h r (fst e) keys _ (snd e)) as [[p' a] inc]. cbn [fst] in Hm.
+    apply IH; [exact Hpc|].
+    intros t' q Hin. apply pm_set_in in Hin as [Heq|Hin]; [inversion Heq; subst; exact Hm|exact (Htm _ _ Hin)].
+Qed.
+
 (** the part of [handle_replay] after the insertion of the header: the precommits are stored
     with the round, the voting view is marked updated (version bump, view-manager event) and the
     commit shift is evaluated - the shape of [apply_votes] for a precommit on the voting view *)
@@ -170,10 +229,10 @@ Lemma K_replay_store ih ivs s1 hd cp temp s' res :
   K ih ivs s1 ->
   v_r (k_vot s1) = cp_round cp -> v_h (k_vot s1) = hd_height hd ->
   auth_pmap (vs_keys (v_vals (k_vot s1))) KPrecommit (v_h (k_vot s1)) (v_r (k_vot s1)) temp -> ne_pmap temp ->
-  temp <> [] ->
+  temp <> [] -> nd_pmap temp ->
   replay_store s1 hd cp temp = Ok (s', res) -> K ih ivs s' /\ pref ih ivs s1 s'.
 Proof.
-  intros HK Hr Hh Htemp Htne Htnn. pose proof HK as (HI&HP&(Xc&(Nc&Nv&Nn)&(N1v&N1n)&Xk&Xs)).
+  intros HK Hr Hh Htemp Htne Htnn Htnd. pose proof HK as (HI&HP&(Xc&(Nc&Nv&Nn)&(N1v&N1n)&Xk&Xs)).
   pose proof HI as (Hc&Ha&Hs&Hhi).
   unfold replay_store. cbv zeta.
   set (v := k_vot s1).
@@ -230,7 +289,26 @@ Proof.
         change (st_rounds s2) with (rs_set (st_rounds s1) h r e'). unfold pc_ne. rewrite rs_entry_set, !N.eqb_refl. cbn [andb].
         unfold e'. cbn [re_pc]. destruct Hcollne as (pkh&en&l&Ec). rewrite Ec. eexists; eexists; eexists; reflexivity.
       - apply Hcell. apply N1n. exact Hpc. }
-    split; [exact Xk|exact S2]. }
+    split; [|exact S2]. split; [exact (proj1 Xk)|]. destruct Xk as [_ [Yv Yn]].
+    unfold Y. change (st_rounds s2) with (rs_set (st_rounds s1) h r e'). change (st_replayed s2) with (st_replayed s1).
+    change (k_vot s2) with v2. change (k_nxt s2) with (k_nxt s1).
+    split.
+    - destruct Yv as ((A1&A2)&(B1&B2)&YC&YD&YE&YF).
+      assert (Hwf' : votes_wf pc') by (split; [apply fold_pm_set_keys_nodup; exact B1|apply fold_pm_set_nd; assumption]).
+      unfold yview, phs_corr. replace (v_h v2) with h by exact Ehv. replace (v_r v2) with r by exact Erv.
+      rewrite rs_entry_set, !N.eqb_refl. cbn [andb].
+      unfold phs_corr in YF. rewrite <- Ehv, <- Erv in YD, YE, YF. fold e in YD, YE, YF.
+      unfold e'. cbn [re_pv re_pc re_phs].
+      split; [split; assumption|]. split; [exact Hwf'|]. split.
+      { unfold mpc_ok, v2, v1. cbn [bump with_sum with_pc v_sum v_vals v_pc]. unfold sum_set_precommits.
+        destruct (set_powers (vs_pows (v_vals v)) pc') as [[t0 b0] m0]. reflexivity. }
+      split; [exact YD|]. split; [|exact YF].
+      unfold coll. apply (vrel_written KPrecommit v2); [exact Hpc'a|exact Hpc'n|exact (proj2 Hwf')].
+    - assert (Hcw : ((h =? v_h (k_nxt s1)) && (r =? v_r (k_nxt s1))) = false).
+      { destruct Hc as (_&_&_&_&Hnr&_). rewrite Hnr, Erv.
+        destruct (N.eqb_spec (v_r (k_vot s1)) (wrap32 (v_r (k_vot s1) + 1))) as [E|_]; [|apply andb_false_r].
+        exfalso. apply (wrap32_succ_neq (v_r (k_vot s1))). symmetry; exact E. }
+      eapply yview_mono; [| | | |exact Yn]; rewrite ?rs_entry_set, ?Hcw; try reflexivity; intros x Hx; exact Hx. }
   assert (P2 : pref ih ivs s1 s2).
   { apply (pref_one ih ivs s1 s2 (WPC h r coll)); [reflexivity|reflexivity|exact Xs|exact S2| |reflexivity].
     eapply adv_sadv; [exact Hc|exact (proj1 I2)|apply adv_frame; exact F]. }
@@ -279,7 +357,7 @@ Proof.
   destruct (_ <? _); [apply Hsame|].
   fold (replay_insert s hd (cp_round cp)).
   unfold bind at 1. destruct (replay_insert s hd (cp_round cp)) as [s1|] eqn:Hins; [|discriminate].
-  destruct (K_replay_insert ih ivs s hd (cp_round cp) s1 HK Hh Hok Hnext Hb Hprev Hvals Hn Hkeys Hins) as [K1 P1].
+  destruct (K_replay_insert ih ivs s hd (cp_round cp) s1 HK Hh Hr Hok Hnext Hb Hprev Hvals Hn Hkeys Hins) as [K1 P1].
   destruct (auth_replay_insert _ _ _ _ (proj1 (proj2 HI)) Hins) as (_&E1&E2&E3&E4).
   assert (Htemp : auth_pmap (vs_keys (v_vals (k_vot s1))) KPrecommit (v_h (k_vot s1)) (v_r (k_vot s1)) temp).
   { rewrite E1, E2, E3, Hr, Hh, <- Hkeys'. eapply replay_temp_auth; [| |exact Hf].
@@ -287,7 +365,10 @@ Proof.
     - apply auth_pmap_nil. }
   assert (Htne : ne_pmap temp).
   { eapply replay_temp_ne; [exact Hf|apply signed_entries_nonempty|intros t p []]. }
+  assert (Htnd : nd_pmap temp).
+  { eapply replay_temp_nd; [| |exact Hf]; [|intros t p []].
+    pose proof HK as (_&_&(_&_&_&(_&(((_&_)&(_&B2)&_)&_))&_)). exact B2. }
   intros Hfin. fold (replay_store s1 hd cp temp) in Hfin.
-  destruct (K_replay_store ih ivs s1 hd cp temp s' res K1 (eq_trans E2 Hr) (eq_trans E1 Hh) Htemp Htne Htnn Hfin) as [K2 P2].
+  destruct (K_replay_store ih ivs s1 hd cp temp s' res K1 (eq_trans E2 Hr) (eq_trans E1 Hh) Htemp Htne Htnn Htnd Hfin) as [K2 P2].
   split; [exact K2|]. eapply pref_trans; [exact P0|]. eapply pref_trans; eassumption.
 Qed.
